@@ -70,9 +70,7 @@ impl Header {
     where
         W: io::Write,
     {
-        writer.write_all(&MAGIC)?;
         let version_bytes = self.version.to_header_bytes();
-        writer.write_all(&version_bytes)?;
 
         let fmt_dict = self.dict.to_string();
 
@@ -86,8 +84,13 @@ impl Header {
         let pad_len = if rem == 0 { 0 } else { ALIGN - rem };
         assert_eq!((len + pad_len) % ALIGN, 0);
 
+        // A header too long for the version is an error, found before anything is written
         let header_len = fmt_dict.len() + pad_len + 1;
-        self.version.write_header_len(header_len, writer)?;
+        let header_len_bytes = self.version.header_len_to_bytes(header_len)?;
+
+        writer.write_all(&MAGIC)?;
+        writer.write_all(&version_bytes)?;
+        writer.write_all(&header_len_bytes)?;
 
         writer.write_all(&fmt_dict.into_bytes())?;
 
@@ -218,22 +221,26 @@ impl Version {
         }
     }
 
-    /// Writes the header_len to a writer.
-    fn write_header_len<W>(&self, header_len: usize, writer: &mut W) -> io::Result<()>
-    where
-        W: io::Write,
-    {
+    /// Returns the little-endian bytes of the header_len in the given version.
+    ///
+    /// # Errors
+    ///
+    /// If the header is too long for its length to be stored in the version.
+    fn header_len_to_bytes(&self, header_len: usize) -> io::Result<Vec<u8>> {
+        let too_long = |_| {
+            io::Error::new(
+                io::ErrorKind::InvalidInput,
+                "npy header too long for format version (too many dimensions)",
+            )
+        };
+
         match self {
-            Version::V1 => writer.write_all(
-                &u16::try_from(header_len)
-                    .expect("cannot convert npy header_len to u16")
-                    .to_le_bytes(),
-            ),
-            Version::V2 | Version::V3 => writer.write_all(
-                &u32::try_from(header_len)
-                    .expect("cannot convert npy header_len to u16")
-                    .to_le_bytes(),
-            ),
+            Version::V1 => u16::try_from(header_len)
+                .map(|n| n.to_le_bytes().to_vec())
+                .map_err(too_long),
+            Version::V2 | Version::V3 => u32::try_from(header_len)
+                .map(|n| n.to_le_bytes().to_vec())
+                .map_err(too_long),
         }
     }
 
